@@ -148,7 +148,16 @@ def run(res, tier, seed, driver_ok):
             own = float(np.asarray(fsr.arcDistance(A, g2)).reshape(-1)[0])
             if abs(own - delta) > 1e-6:
                 bad('closeArcGap', 'arcDistance(origin, closeArcGap(origin, goal, delta)) is not delta', {'a': list(a), 'b': list(b), 'delta': delta}, own)
-        # ---- straight path
+        # ---- gap closing when the goal is NEARER than the step (the step still advances by exactly delta, along the same line)
+        if n % 3 == 0:
+            u6 = np.array([rnd.gauss(0, 1) for _ in range(6)]); u6 = u6 / np.linalg.norm(u6)
+            near = a + u6 * delta * rnd.uniform(0.2, 0.95)
+            Bn = tm(list(near))
+            g3 = fsr.closeLinearGap(A, Bn, delta)
+            corr('hlp.clg %s %s %s' % (tmh.H(a), tmh.H(near), C.f2h(delta)), g3.gTAA())
+            adv3 = np.linalg.norm(g3.gTAA().reshape(-1) - a)
+            if abs(adv3 - delta) > tol or np.max(np.abs((g3.gTAA().reshape(-1) - a) / delta - u6)) > 1e-6:
+                bad('closeLinearGap', 'linear gap step does not advance by delta toward the goal', {'a': list(a), 'b': list(near), 'delta': delta, 'goal_nearer_than_step': True}, adv3)
         steps = rnd.choice([2, 3, 5, 17, rnd.randint(2, 200)])
         path = fsr.IKPath(A, B, steps)
         P = np.array([p.gTAA().reshape(-1) for p in path])
